@@ -314,7 +314,7 @@ func (l *lexer) acceptToken(ttype int) bool {
 	case token_unknown:
 		return l.acceptToks(ttype, isIdent, isPrefixedIdent)
 	case token_ident:
-		return l.acceptToks(ttype, isIdent, nil)
+		return l.acceptToks(ttype, isIdent, nil) || l.acceptQuotedIdent(ttype)
 	case token_string:
 		return l.acceptString()
 	case token_number:
@@ -333,6 +333,45 @@ func (l *lexer) acceptToken(ttype int) bool {
 	}
 	l.pos += len(keyword)
 	l.emit(ttype)
+	return true
+}
+
+// acceptWord takes a word of the language that stands where an argument is expected (true,
+// current, unbounded, not-supported ...) bare or, like every argument may be written, in
+// quotes (RFC7950 Sec 6.1.3)
+func (l *lexer) acceptWord(ttype int) bool {
+	keyword := l.keyword(ttype)
+	for _, q := range []string{"\"", "'"} {
+		quoted := q + keyword + q
+		if strings.HasPrefix(l.input[l.pos:], quoted) {
+			l.pos += len(quoted)
+			l.emit(ttype)
+			return true
+		}
+	}
+	return l.acceptToken(ttype)
+}
+
+// acceptQuotedIdent takes an identifier written in quotes and hands on the identifier
+func (l *lexer) acceptQuotedIdent(ttype int) bool {
+	rest := l.input[l.pos:]
+	if len(rest) < 3 || (rest[0] != char_doublequote && rest[0] != char_singlequote) {
+		return false
+	}
+	end := strings.IndexByte(rest[1:], rest[0])
+	if end <= 0 {
+		return false
+	}
+	ident := rest[1 : 1+end]
+	for _, r := range ident {
+		if !isIdent(r) {
+			return false
+		}
+	}
+	l.pos += end + 2
+	l.pushToken(token{ttype, ident})
+	l.start = l.pos
+	l.acceptWS()
 	return true
 }
 
@@ -551,7 +590,7 @@ func lexBegin(l *lexer) stateFunc {
 	// FORMAT:
 	//  deviate (fixed_set) ;
 	if l.acceptToken(kywd_deviate) {
-		if l.acceptToken(kywd_not_supported) {
+		if l.acceptWord(kywd_not_supported) {
 			if l.acceptToken(token_curly_open) {
 				return lexBegin
 			}
@@ -563,7 +602,7 @@ func lexBegin(l *lexer) stateFunc {
 			kywd_delete,
 		}
 		for _, ttype := range deviateTypes {
-			if l.acceptToken(ttype) {
+			if l.acceptWord(ttype) {
 				if !l.acceptToken(token_curly_open) {
 					return l.error("expected {")
 				}
@@ -607,7 +646,7 @@ func lexBegin(l *lexer) stateFunc {
 			kywd_deprecated,
 		}
 		for _, t := range allowed {
-			if l.acceptToken(t) {
+			if l.acceptWord(t) {
 				return l.acceptEndOfStatement()
 			}
 		}
@@ -640,7 +679,7 @@ func lexBegin(l *lexer) stateFunc {
 	}
 	for _, ttype := range types {
 		if l.acceptToken(ttype) {
-			if !l.acceptToken(kywd_true) && !l.acceptToken(kywd_false) {
+			if !l.acceptWord(kywd_true) && !l.acceptWord(kywd_false) {
 				return l.error("expecting true or false")
 			}
 			return l.acceptEndOfStatement()
@@ -694,7 +733,7 @@ func lexBegin(l *lexer) stateFunc {
 			kywd_user,
 		}
 		for _, ttype := range types {
-			if l.acceptToken(ttype) {
+			if l.acceptWord(ttype) {
 				return l.acceptEndOfStatement()
 			}
 		}
@@ -707,7 +746,7 @@ func lexBegin(l *lexer) stateFunc {
 			kywd_invert_match,
 		}
 		for _, ttype := range types {
-			if l.acceptToken(ttype) {
+			if l.acceptWord(ttype) {
 				return l.acceptEndOfStatement()
 			}
 		}
@@ -721,7 +760,7 @@ func lexBegin(l *lexer) stateFunc {
 	}
 	for _, ttype := range types {
 		if l.acceptToken(ttype) {
-			if !l.acceptToken(kywd_unbounded) {
+			if !l.acceptWord(kywd_unbounded) {
 				if !l.acceptInteger(token_number) {
 					if !l.acceptToken(token_string) {
 						return l.error("expecting integer")
